@@ -11,7 +11,7 @@ run_demo() { # $1 = repo dir
   case "$KIND" in
     pangaea) (cd "$1" && go build -o "$M/pg" . && "$M/pg" "$SD/demo.pangaea" 2>&1 | tail -3) ;;
     gotest:*) d="${KIND#gotest:}"; cp "$SD/demo_test.go" "$1/$d/zz_seed_demo_test.go"; (cd "$1" && go test -race -vet=off -count=1 -run 'TestC[0-9]+' "./$d/" 2>&1 | grep -E "^(ok|FAIL|---|PASS|WARNING: DATA RACE)" | sort | uniq -c | head -5); rm -f "$1/$d/zz_seed_demo_test.go" ;;
-    sh:*) s="${KIND#sh:}"; mkdir -p "$1/_seeded" && cp -r "$SD/." "$1/_seeded/" && (sh "$1/_seeded/$s" 2>&1 | tail -3); rm -rf "$1/_seeded" ;;
+    sh:*) s="${KIND#sh:}"; mkdir -p "$1/_seeded" && cp -r "$SD/." "$1/_seeded/" && (bash "$1/_seeded/$s" 2>&1 | tail -3); rm -rf "$1/_seeded" ;;
   esac
 }
 rsync -a --exclude .git /repo/ "$M/without/"; rsync -a --exclude .git /repo/ "$M/with/"
